@@ -877,6 +877,9 @@ var keyPool = []string{"a", "b", "c", "d", "e", "f", "g", "h", "ab", "abc", "b\x
 
 func genKey(t *rapid.T, existing map[string][]byte) []byte {
 	c := rapid.IntRange(0, 9).Draw(t, "kc")
+	if rapid.IntRange(0, 29).Draw(t, "kempty") == 0 {
+		return []byte{} // the empty key is a legal tree key (v1 accepts it)
+	}
 	switch {
 	case c < 4:
 		return []byte(rapid.SampledFrom(keyPool).Draw(t, "kp"))
